@@ -78,26 +78,28 @@ def stale_variants(ctx, en, decl):
     return out
 
 
-def make_case(ctx, cid, en, batch=None):
+def make_case(ctx, cid, en, batch=None, mode=None):
     T = en["T"]
+    lay = enumgen.layout(ctx, GEN[0], en, force=mode)
     cl, decl = enumgen.classify(en)
     win = enumgen.window(en["kind"], [v for _, v in decl]) if decl else [0, 1]
     variants = stale_variants(ctx, en, decl) if cl in ("wf", "neg", "big") else []
     extra = [["win"] + [str(v) for v in win],
              ["stale"] + [[lbl] + [[Q(n), str(v)] for n, v in cur] for lbl, _, cur in variants]]
-    case = {"id": cid, "en": en, "decl": decl, "files": enumgen.render_files(en),
-            "runs": [{"args": ["enum", "-type=" + T]}],
+    variants = [(lbl, dict(files, **lay["extra"]), cur) for lbl, files, cur in variants]
+    case = {"id": cid, "en": en, "decl": decl, "files": lay["files"], "mode": lay["mode"], "spread": lay["spread"],
+            "runs": [{"args": ["enum"] + lay["sel"]}],
             "oracle": {".": enumgen.oracle_c04(en, decl, win)} if decl else {},
-            "sexp": enumgen.case_sexp(cid, "c04", en, extra), "cmd": "shoot enum -type=" + T,
+            "sexp": enumgen.case_sexp(cid, "c04", en, extra), "cmd": "shoot enum " + " ".join(lay["sel"]),
             "variants": variants, "shape": en.get("shape") if en.get("shape") in VARIANTS else cl}
 
     def post(b, c, r):
-        rel, gen = enumgen.generated_file(r["written"])
-        if not rel:
+        gens = enumgen.generated_files(r["written"])
+        if not gens:
             return
         for lbl, files, _ in c["variants"]:
             fs = dict(files)
-            fs[rel] = gen
+            fs.update(gens)
             enumgen.write_pkg(os.path.join(b.root, "c_%sx%s" % (c["id"], lbl)), fs)
     case["post"] = post
     return case
@@ -146,8 +148,12 @@ def exhaustive_enums(ctx):
     return out
 
 
+GEN = [None]
+
+
 def gen_cases(ctx):
     g = enumgen.EnumGen(ctx.rng)
+    GEN[0] = g
     ens = [en for en, _ in enumgen.load_corpus(PROP)]
     for f in SHAPED:
         ens.append(g.enum("wf", f))
@@ -228,6 +234,7 @@ def run(ctx, obl):
             for f in enumgen.features_of(c["en"]):
                 res.hist("features", f)
             res.hist("shape", c["shape"])
+            res.hist("run-mode", c["mode"] + ("+spread" if c["spread"] and c["mode"].startswith("file") else ""))
             res.hist("requested-feature", c["en"].get("feature", "random"))
             res.hist("stale-variants", str(len(c["variants"])))
             for lbl, _, _ in c["variants"]:
@@ -241,11 +248,14 @@ def run(ctx, obl):
                     v.setdefault("detail", c.get("detail"))
                     v.setdefault("sources", c["files"])
                     v.setdefault("enum", c["en"])
+                    v.setdefault("mode", c["mode"])
     res.rule = ("enums generated from the spec grammar (10 integer kinds; iota / shifted / offset / scaled / explicit decimal+hex / multi-name / "
                 "carried-down specs; `_` placeholders; 1-3 const blocks in 1-3 files, parenthesised or not; prefixed, unprefixed, lower-cased and "
                 "accidentally prefixed names; other-type and untyped distractor specs), one shaped case per feature and kind, shaped cases for every "
                 "region (negative, > MaxInt64, duplicate value, duplicate trimmed name, typed expression, no constant), then seeded random ones; "
-                "`shoot enum -type=T` is run, the output compiled with the package and all six methods executed for every declared value and every "
+                "ONE shoot run per package generates T either alone (-type=T), after a companion enum type (-type=Comp,T), by -file=<file of T> with T's const "
+                "blocks spread over several files, or by -file= with a companion type declared before T; the expectation is always T's single-type "
+                "model over all files of the package; the output is compiled with the package and all six methods executed for every declared value and every "
                 "value of a window (min-3..max+3, every gap, 0, +-1, the type's min and max); up to four re-declarations of the constants "
                 "(unchanged / one value changed / two values swapped / an edit of the original spec) are compiled against the un-regenerated file. "
                 "non-trivial = distinct declaration with at least two constants outside Out" +
@@ -263,7 +273,8 @@ def replay(ctx, payload):
     if not en:
         print(payload.get("case") or payload)
         return 0
-    c = make_case(ctx, "replay", en)
+    GEN[0] = enumgen.EnumGen(ctx.rng)
+    c = make_case(ctx, "replay", en, mode=payload.get("mode"))
     for fn, src in c["files"].items():
         print("---- %s\n%s" % (fn, src))
     print(c["sexp"])
